@@ -40,7 +40,7 @@ def register(prop, run, KERNELS, C01_COVERS):
     inv_cov = ["done", "insert-new", "delete-hit"]
     prop("C13",
          quick=[run("C13_step", covers=inv_cov + ["decoded", "reopened"], nmax=2, cache=1, decode=1),
-                run("C13_step", covers=inv_cov, nmin=3, nmax=3, store=0, cache=0, variant=1),
+                run("C13_step", covers=inv_cov, nmin=3, nmax=3, store=0, cache=0, variant=1, cmps=2),
                 run("C13_step", covers=inv_cov + ["canonical-checked"], nmax=3, store=0, cache=0, variant=2),
                 run("C13_step", covers=inv_cov + ["canonical-checked"], nmin=1, nmax=2, store=1, cache=2, variant=2, vlenmin=0),
                 run("C13_step", covers=["done", "canonical-checked"], nmin=3, nmax=3, store=0, cache=0, variant=2, partial=1, vlenmin=1)],
@@ -146,7 +146,7 @@ def register(prop, run, KERNELS, C01_COVERS):
 
     prop("C15",
          quick=[run("C15_hist", covers=["done"], store=1, k=3, snaps=1, readback=1, opmask=mask(0, 1, 2, 3, 4, 6, 7, 13, 14)),
-                run("C15_hist", covers=["done"], store=0, k=3, snaps=1, readback=1, opmask=mask(0, 1, 4, 6, 8, 12, 14)),
+                run("C15_hist", covers=["done"], store=0, k=3, snaps=1, readback=1, opmask=mask(0, 1, 4, 6, 8, 10, 12, 14)),
                 run("C15_hist", covers=["done"], store=1, k=3, snaps=1, readback=1, init=0, opmask=mask(0, 2, 13, 17)),
                 run("C15_get", store=1)],
          thorough=[run("C15_get", store=1),
@@ -170,7 +170,7 @@ def register(prop, run, KERNELS, C01_COVERS):
     prop("C08",
          quick=[run("C08_revert", covers=["done", "reverted-to-empty", "reverted-to-flush"], store=1, flushes=2, bigval=1, lean=1, cmps=2, unwind_violation=1, step_budget=400000),
                 run("C08_revert", covers=["done", "reverted-to-empty", "continued"], store=1, flushes=1, bigval=0, lean=0, unwind_violation=1, step_budget=400000),
-                run("C08_revert", covers=["done", "reverted-to-flush"], store=1, flushes=3, bigval=0, lean=1, rootsonly=1, unwind_violation=1, step_budget=800000),
+                run("C08_revert", covers=["done", "reverted-to-flush"], store=1, flushes=3, bigval=0, lean=1, rootsonly=1, cmps=2, unwind_violation=1, step_budget=800000),
                 run("C08_revert", covers=["memonly"], store=0, flushes=0, bigval=0, lean=0, unwind_violation=1)],
          thorough=[run("C08_revert", covers=["done", "reverted-to-empty", "reverted-to-flush", "continued"], store=1, flushes=2, bigval=0, lean=0, unwind_violation=1, step_budget=400000, budget=1800),
                    run("C08_revert", covers=["done", "reverted-to-empty", "reverted-to-flush"], store=1, flushes=3, bigval=1, lean=1, cmps=2, unwind_violation=1, step_budget=800000, budget=1800),
